@@ -39,6 +39,8 @@ def clone(x):
     """deep copy with NEW bytes objects (so identity of an argument never recurs between two probe calls)"""
     if isinstance(x, bytes):
         return bytes(bytearray(x)) if len(x) > 1 else x
+    if isinstance(x, bytearray):
+        return bytearray(x)
     if isinstance(x, list):
         return [clone(y) for y in x]
     if isinstance(x, tuple):
@@ -139,8 +141,8 @@ RECIPES = {
     "ec_seckey_verify": [("", lambda P: ((P["secret"],), {}))],
     "ec_privkey_negate": [("", lambda P: ((P["secret"],), {}))],
     "ec_pubkey_negate": [("", lambda P: ((P["pub"],), {}))],
-    "ec_privkey_tweak_add": [("", lambda P: ((P["secret"], P["tweak"]), {}))],
-    "ec_pubkey_tweak_add": [("", lambda P: ((P["pub"], P["tweak"]), {}))],
+    "ec_privkey_tweak_add": [("", lambda P: ((bytearray(P["secret"]), P["tweak"]), {}))],   # in-place: needs a mutable buffer
+    "ec_pubkey_tweak_add": [("", lambda P: ((bytearray(P["pub"]), P["tweak"]), {}))],
     "ec_privkey_add": [("", lambda P: ((P["secret"], P["tweak"]), {}))],
     "ec_pubkey_add": [("", lambda P: ((P["pub"], P["tweak"]), {}))],
     "ec_privkey_tweak_mul": [("", lambda P: ((P["secret"], P["tweak"]), {}))],
